@@ -193,7 +193,10 @@ def run_check(prop: str, tier: str, only: str | None = None, jobs: int = 16, ver
             json.dump({"property": prop, "failed_obligation": v.get("name"), "contract": v.get("contract"), "target": v.get("target"), "kind": v.get("kind"), "site": v.get("site"), "detail": v.get("detail"), "inputs": v.get("inputs"), "replay": v.get("replay"), "solver": v.get("backend"), "confirmed_on_real_code": confirmed}, f, indent=1, default=str)
         lines.append(f"VIOLATION property={prop} replay={path}" + ("" if confirmed else " no-failing-input-found"))
 
-    proved_all = n_obl > 0 and n_dis + sum(1 for kh in known_hit if "name" in kh["failure"] and kh["failure"].get("kind") != "standin") >= n_obl and not undecided
+    n_known_obl = sum(1 for kh in known_hit if "name" in kh["failure"] and kh["failure"].get("kind") != "standin")
+    # obligations that fail because of a recorded known finding are reported separately, not as open obligations
+    n_obl_reported = n_obl - n_known_obl
+    proved_all = n_obl_reported > 0 and n_dis >= n_obl_reported and not undecided
     level_cfg = getattr(standin, "LEVEL", None) if standin is not None else None
     level = level_cfg or ("proof" if (proved_all and not bounded) else "other")
     if level == "proof" and not proved_all:
@@ -205,12 +208,13 @@ def run_check(prop: str, tier: str, only: str | None = None, jobs: int = 16, ver
         "seed": seed,
         "level": level,
         "coverage": {
-            "obligations": n_obl,
+            "obligations": n_obl_reported,
             "discharged": n_dis,
+            "obligations_failing_on_known_findings": n_known_obl,
             "checker_cmd": f"./vcheck {prop} --tier {tier}",
             "trusted_base": [TRUSTED[a] for a in sorted(assumptions, key=lambda x: int(x[1:])) if a in TRUSTED],
             "explanation": (explanation + " " if explanation else "")
-            + f"{n_dis}/{n_obl} verification conditions generated from the real source of {len(functions)} functions were discharged "
+            + f"{n_dis}/{n_obl_reported} verification conditions (plus {n_known_obl} that fail on recorded known findings and are listed under known_findings_hit) generated from the real source of {len(functions)} functions were discharged "
             f"({', '.join(f'{k}:{v}' for k, v in sorted(by_backend.items()))}); {len(undecided)} undecided; {len(known_hit)} failed obligations match recorded known findings; "
             f"{canaries} must-fail canary contracts failed as required; bounded stand-ins: {len(bounded)} (never counted as discharged).",
             "samples": samples or [{"note": "no deductive contracts for this property"}],
